@@ -174,6 +174,11 @@ def check(P, R):
             names = names_loaded(test.test)
             flags = {x.operand.id for x in ast.walk(test.test) if isinstance(x, ast.UnaryOp) and isinstance(x.op, ast.Not)
                      and isinstance(x.operand, ast.Name)}
+            # ... and whatever else lets the switch happen exactly once (`mem_body is not None`, cleared at the switch)
+            from . import c04 as _c04
+            armed_by = {fl: _c04._falsy_const for fl in flags}
+            armed_by.update(dict(_c04.one_shot_flags(f, loop, g.nodes_for(loop)[0], d, body, with_armed=True)))
+            flags = set(armed_by)
             cmpx = [p for p in bool_operands(test.test, ast.And) if isinstance(p, ast.Compare)]
             def _tell(e_):
                 # the write position of the buffer itself is its accumulated size (it is only ever appended to)
@@ -199,9 +204,12 @@ def check(P, R):
                 ok = True
                 for fl in flags:
                     for dd in rd.at(head, fl):
-                        if dd.kind == 'assign' and not (isinstance(dd.value, ast.Constant) and dd.value.value in (False, True)):
+                        if T._inside(dd.stmt, loop.body):
+                            continue
+                        if dd.kind != 'assign' or dd.value is None or not armed_by[fl](dd.value):
                             ok = False
-                            det = f'one-shot flag `{fl}` does not start as a constant'
+                            det = (f'the one-shot flag `{fl}` starts as `{short(dd.value) if dd.value is not None else dd.kind}`: it does not allow the switch '
+                                   f'on the first part that exceeds the threshold')
                 det = '' if ok else det
         R.ob('C13.c', f, d.stmt, ok, detail=det, why='a body larger than the in-memory threshold is kept on disk under both framings')
     # the initial buffer is an in-memory BytesIO (the spill is the only way to a file) or the file from the start
